@@ -2,6 +2,7 @@ package ast
 
 import (
 	"bytes"
+	"math"
 	"strconv"
 	"strings"
 
@@ -40,6 +41,9 @@ func NewNumber(id *token.Token) (ExpNode, error) {
 			if err == nil || f != 0 {
 				return Float{Location: loc, Val: f}, nil
 			}
+		} else if n > math.MaxInt64 {
+			// A decimal integer that overflows int64 denotes a float
+			return Float{Location: loc, Val: float64(n)}, nil
 		}
 	}
 	if err != nil {
